@@ -2,11 +2,13 @@
 
 use vcore::runner::{unhex, Mode, Report, Tier};
 
+mod c01;
 mod c07;
 mod c08;
 mod c09;
 mod c10;
 mod c20;
+mod reftest;
 
 fn main() {
     let args: Vec<String> = std::env::args().collect();
@@ -29,7 +31,24 @@ fn main() {
     }
     vcore::jq::install_panic_hook();
     let report = Report::new(&id, tier, mode);
+    if id == "REFTEST" {
+        reftest::run()
+    }
+    if id == "REFRUN" {
+        // verif REFRUN <which: ref|jaq|both> <program> <input-json>
+        let input = jaq_json::read::parse_single(args[4].as_bytes()).unwrap();
+        if args[2] != "jaq" {
+            let r = vcore::refrun::run_ref(&args[3], &[("$g", jaq_json::Val::Null)], input.clone(), 64, 150_000);
+            println!("REF: {:?}", r.map(|r| r.0.iter().map(|o| o.show()).collect::<Vec<_>>()));
+        }
+        if args[2] != "ref" {
+            let j = vcore::jq::eval(&args[3], &[("g", jaq_json::Val::Null)], input, 64);
+            println!("JAQ: {:?}", j.map(|j| vcore::jq::show_outs(&j)));
+        }
+        std::process::exit(0);
+    }
     match id.as_str() {
+        "C01" => c01::run(report),
         "C07" => c07::run(report),
         "C08" => c08::run(report),
         "C09" => c09::run(report),
